@@ -257,12 +257,22 @@ def replay_encode(beh, encoder=None, canonical=True):
     """spec -> code, encoder: the specification's values go through the real Encoder and the bytes are
     compared with the specification's message (canonical=True: byte identity)."""
     from pybufrkit.encoder import Encoder
+    from pybufrkit import _verif
     enc = encoder or Encoder()
     j = pyb.flat_json(beh['ed'], beh['ids'], beh['nsub'], beh['cmp'], flat_values(beh), ident=ident_of(beh))
+    del _verif.EVENTS[:]
     try:
         msg = enc.process(j)
     except Exception as e:
+        del _verif.EVENTS[:]
         return (('encode', 'exception', type(e).__name__, ''), 'encoder raised %r for conforming values' % (e,)), None
+    ev = [e for e in _verif.EVENTS if e.get('coder') == 'Encoder' and e.get('a', '').startswith('process_')]
+    del _verif.EVENTS[:]
+    if _verif.enabled():
+        # the primitive calls of the encoder (label, effective width / scale / reference) against the specification entries
+        bad = compare_events(beh, ev, cursors=False)
+        if bad:
+            return (('encode',) + tuple(bad[0]), bad[1]), msg
     data = msg.serialized_bytes
     if canonical and data != bytes(beh['msg']):
         want = bytes(beh['msg'])
